@@ -4,11 +4,13 @@ CONSTANTS
   N = 3
   Byz <- NoByz
   Nodes <- Obs1
-  Blk0 <- T3w
+  Blk0s <- ST3w
   MaxBlocks = 15
   MaxRestarts = 0
   ByzMode = "branch"
   ByzRanges <- R123
+  Runs = FALSE
+  BadKinds <- OnlyOk
   Fixes <- NoFix
 VIEW view
 PROPERTIES LibMonotone
